@@ -41,6 +41,11 @@ fn requests() -> Vec<(ReqSpec, bool)> {
     v
 }
 
+/// C09 owns: no panic, successor states per the documented graph, readiness = advancing, usability of every reached state.
+fn scope(k: &str) -> bool {
+    k.starts_with("proceed:") || k.starts_with("readiness:") || k.starts_with("graph:") || k.starts_with("redirect:") || k == "no-path-to-completion" || k == "no-final-state" || k.starts_with("canonical:") || k.starts_with("queries:")
+}
+
 fn cut_points(srv: &[ServerMsg]) -> Vec<usize> {
     let mut v = Vec::new();
     let mut at = 0;
@@ -118,7 +123,10 @@ pub fn build(tier: Tier) -> Vec<Arc<ExchCfg>> {
             menu.extra_calls = true;
             let trailing = if close { vec![] } else { b"HTTP/1.1 200 OK\r\n\r\n".to_vec() };
             match ExchCfg::new("C09", r.cfg.clone(), r.body.clone(), srv, trailing, menu) {
-                Ok(c) => out.push(Arc::new(c)),
+                Ok(mut c) => {
+                    c.scope = scope;
+                    out.push(Arc::new(c))
+                }
                 Err(e) => panic!("harness: valid request not writable: {} ({})", r.label, e),
             }
         }
